@@ -110,7 +110,12 @@ MLines(s, c, P, n) ==
 NoSlashEdge(s) == /\ Len(s) > 0 /\ s[1] # "/" /\ s[Len(s)] # "/"
                   /\ \A i \in 1..(Len(s) - 1) : ~(s[i] = "/" /\ s[i + 1] = "/")
 
-InLanguage(f, s) == (Len(s) + 1) \in MSeq(s, f.fmt, 1, {1}) /\ (f.slash => NoSlashEdge(s))
+\* A first line that starts with "/" IS the party-identifier / account line of the format: SWIFT never
+\* reads it as a name-and-address (or location) line, although "/" belongs to the x character set.
+\* So for such contents the optional first line is matched as present.
+IdLineFirst(fmt) == fmt[1].k = "opt" /\ fmt[1].body[Len(fmt[1].body)].k = "nl" /\ Len(fmt) > 1
+EffFmt(fmt, s) == IF IdLineFirst(fmt) /\ Len(s) > 0 /\ s[1] = "/" THEN fmt[1].body \o Tail(fmt) ELSE fmt
+InLanguage(f, s) == (Len(s) + 1) \in MSeq(s, EffFmt(f.fmt, s), 1, {1}) /\ (f.slash => NoSlashEdge(s))
 
 (* ------------------------------- generator ------------------------------- *)
 Pattern(cls) == CASE cls = "n" -> <<"1", "2", "3", "4", "5", "6", "7", "8", "9", "0">>
@@ -137,7 +142,9 @@ SemTyp(name) ==
     [] name = "AMT0" -> <<"1", "2", ",", "5", "6">>      \* an amount / rate that may be zero
 SemVar(name) ==     \* ordered, so that a variant can be named by its index
   CASE name = "DATE" -> << <<"2", "4", "1", "3", "0", "1">>, <<"2", "3", "0", "2", "2", "9">>, <<"2", "4", "0", "2", "2", "9">>,
-                           <<"2", "4", "0", "7", "1">>, <<"2", "4", "0", "7", "1", "A">>, <<"2", "4", "0", "7", "0", "0">> >>
+                           <<"2", "4", "0", "7", "1">>, <<"2", "4", "0", "7", "1", "A">>, <<"2", "4", "0", "7", "0", "0">>,
+                           \* both sides of the century window (valid dates: 2049-12-31, 1950-01-01)
+                           <<"4", "9", "1", "2", "3", "1">>, <<"5", "0", "0", "1", "0", "1">> >>
     [] name = "TIME" -> << <<"2", "5", "0", "0">>, <<"1", "2", "6", "0">>, <<"1", "2", "3">>, <<"2", "3", "5", "9">> >>
     [] name = "OFFS" -> << <<"2", "5", "6", "0">>, <<"0", "1", "6", "0">>, <<"0", "1", "0">>, <<"1", "3", "0", "0">> >>
     [] name = "SIGN" -> << <<"-">>, <<"*">>, <<>> >>
